@@ -161,8 +161,24 @@ def key_of(ops, step):
     return key
 
 
-def check_executions(ctx, binary, executions, tag):
-    return vlib.check_executions(ctx, binary, executions, tag, SPECDIR, "VariantValuesTrace", "VariantValuesTrace.cfg", key_of)
+def check_executions(ctx, binary, executions, tag, batch=None, keep_trace=False):
+    """driver -> ndjson trace -> TLC trace specification; large sets go in batches (trace files are ~1 KB per op)"""
+    if batch is None or len(executions) <= batch:
+        r = vlib.check_executions(ctx, binary, executions, tag, SPECDIR, "VariantValuesTrace", "VariantValuesTrace.cfg", key_of)
+        if not keep_trace:
+            _rm(os.path.join(ctx.work, "trace_%s.ndjson" % tag))
+        return r
+    for n, k in enumerate(range(0, len(executions), batch)):
+        t = "%s_%d" % (tag, n)
+        vlib.check_executions(ctx, binary, executions[k:k + batch], t, SPECDIR, "VariantValuesTrace", "VariantValuesTrace.cfg", key_of)
+        _rm(os.path.join(ctx.work, "trace_%s.ndjson" % t))
+
+
+def _rm(p):
+    try:
+        os.remove(p)
+    except OSError:
+        pass
 
 
 def label_to_op(name, args):
@@ -230,7 +246,7 @@ def replay_graph(ctx, binary, cfg, tag, timeout, sample=None):
         ctx.cov["graph_%s.%s" % (tag, o)] = cnt.get(o, 0)
         if cnt.get(o, 0) == 0:
             ctx.broken.append("vacuity: the Layer-2 graph %s has no transition for operation %s" % (tag, o))
-    check_executions(ctx, binary, execs, "graph_" + tag)
+    check_executions(ctx, binary, execs, "graph_" + tag, batch=3000)
 
 
 def sensitivity(ctx):
@@ -294,14 +310,17 @@ def run(ctx):
         replay_graph(ctx, binary, "CowVariantImpl_small.cfg", "small", 300)
     else:
         replay_graph(ctx, binary, "CowVariantImpl.cfg", "full", 900)
-        replay_graph(ctx, binary, "CowVariantImpl_big.cfg", "big", 1800, sample=9000)
+        # larger bound (non-empty nested containers shared between variables): refinement and structural invariants
+        # only -- 6.4 million transitions are not replayed
+        r = vlib.tlc(SPECDIR, "CowVariantImpl", "CowVariantImpl_big.cfg", workers=8, timeout=2400, xmx="6g")
+        ctx.add_tlc("CowVariantImpl:big", r)
     # 3. direction B: random histories over three real Variant variables, validated by TLC against VariantValues
     nexec, nops = (500, 40) if ctx.quick else (6000, 60)
     execs = [rand_exec(ctx.rng, nops) for _ in range(nexec)]
     cnt = op_counts(execs)
     for o in ALL_OPS + ["smoke"]:
         ctx.cov["random." + o] = cnt.get(o, 0)
-    check_executions(ctx, binary, execs, "random")
+    check_executions(ctx, binary, execs, "random", keep_trace=True)
     ts = trace_stats(ctx, "random", every=1 if ctx.quick else 7)
     ctx.notes["random_state_stats"] = ts
     if ts["events"] >= 2000 and not ctx.violations and (ts["depth2"] == 0 or ts["equal_pairs_nonnull"] == 0 or ts["containers"] == 0):
